@@ -33,13 +33,25 @@ func init() {
 			return Plan{Level: "exploration", NCases: pick(tier, 120, 15000), Batch: 3, CaseTimeout: 240,
 				Rule: "one case = a node wired as cmd/option.Run wires it (REAL Prometheus client with the cluster label, storage metrics wrapper, backend, etcd and native servers) receiving a burst of 8 concurrent first requests and then 80 generated requests: request structs of etcd Txn/Range/Watch/Lease and native Create/Update/Delete/Get/Range/Count/ListPartition/RangeStream/Compact/Watch are filled with PRNG values biased to hostile ones (keys of arbitrary bytes incl. invalid UTF-8, empty, containing '$' and the internal magic prefix; revisions 0, +-1, MinInt64, MaxInt64, 1888, far future; negative and huge limits; missing sub-messages; unsupported shapes), marshalled and unmarshalled (so exactly the protobuf-decodable ones) and written to disk before being sent. " +
 					"oracle: the call returns within a watchdog; no panic (recovered in the calling goroutine, process death otherwise, the last logged request being the witness); a recording metrics decorator never sees one metric name with two label-name sets or kinds; after every request a probe create + Range(rev=0) + a pre-opened watcher see the new key, and the notify-deposit conservation monitor (C04) gives the wedge verdict without a timeout. " +
+					"Every 24th case is instead a tour of the metric call sites a healthy stub-elected leader never reaches: two complete nodes built by server.NewServer over one store (real Campaign, real peer HTTP endpoint, real revision syncer, gRPC with the production interceptors), one leading and one following, every request type on both, lease/cluster calls, an unknown outcome repaired by the retry loop, compactions with a failing delete and a failing record write, an iterator error, a watcher that overflows, the follower losing its leader's endpoint; a process-wide table of (metric name -> kind, label names) must stay single-valued. " +
 					"non-trivial = case that sent >=10 distinct request types incl. >=1 watch on a non-UTF-8 prefix, >=1 negative revision and >=1 unsupported txn; distinct by request digest",
-				Assumptions: []string{"3 of 4 cases call the handlers in-process with protobuf-round-tripped requests, every 4th goes through a real loopback gRPC connection with the metrics client's server options", "the election is a stub reporting 'leader'; leader.election.* and TLS call sites are not reachable",
+				Assumptions: []string{"3 of 4 cases call the handlers in-process with protobuf-round-tripped requests, every 4th goes through a real loopback gRPC connection with the metrics client's server options", "in the fuzz cases the election is a stub reporting 'leader'; the tour cases run the real election; TLS call sites and leader.election.lost (which ends the process) are not reachable",
 					"metric call sites reached are listed in evidence; unreached ones are not claimed"},
 				MinConcl: pick(tier, 90, 12000)}
 		},
-		Name: func(c *harness.Case) string { return "fuzz-" + []string{"memkv", "badger", "tikv"}[c.Index%3] },
-		Run:  runC20,
+		Name: func(c *harness.Case) string {
+			if c.Index%24 == 11 {
+				return "metric-call-site-tour"
+			}
+			return "fuzz-" + []string{"memkv", "badger", "tikv"}[c.Index%3]
+		},
+		Run: func(c *harness.Case) {
+			if c.Index%24 == 11 {
+				runC20Tour(c)
+				return
+			}
+			runC20(c)
+		},
 	}
 }
 
